@@ -47,8 +47,10 @@ def four_point(tp):
         stack.append(p)
         while len(stack) >= 4:
             (ia, a), (ib, b), (ic, c), (id_, d) = stack[-4:]
-            inner = abs(b - c)
-            if inner <= abs(a - b) and inner <= abs(c - d):
+            # |b-c| <= |a-b| and |b-c| <= |c-d| in exact arithmetic: the points alternate, so the inner range fits
+            # into the outer ones iff c does not pass a and b does not pass d.  (Floating point differences round:
+            # a range that is larger by less than the rounding would tie.)
+            if (b > c and c >= a and d >= b) or (b < c and c <= a and d <= b):
                 cycles.append((b, c, ib, ic))
                 del stack[-3:-1]
             else:
